@@ -266,3 +266,82 @@ def doc_to_arrays(doc):
         arrays.append(arr)
     hdr = OrderedDict((text(k), typed_header_value(text(v))) for k, v in doc['pairs'])
     return names, arrays, (enums or None), (hdr or None)
+
+
+# ---- binding self-test: a falsified expectation must be reported ---------------------------------
+
+def _thaw(v):
+    if isinstance(v, dict):
+        return {k: _thaw(x) for k, x in v.items()}
+    if isinstance(v, (tuple, list)):
+        return [_thaw(x) for x in v]
+    return v
+
+
+def _bump(cell):
+    """A different cell text: last character replaced by another digit / letter (cells are character sequences)."""
+    cell = list(cell)
+    if not cell:
+        return ['x']
+    last = cell[-1]
+    cell[-1] = '7' if last != '7' else '3'
+    return cell
+
+
+def falsify(res, mode):
+    """Return a copy of a SpecParse/Canon value that differs from `res` in one place, or None when the mode does not
+    apply (e.g. no rows).  Modes: 0 pair value, 1 drop the last row, 2 one cell, 3 a column name, 4 an extra pair."""
+    r = _thaw(res)
+    tabs = r['tables']
+    if mode == 0:
+        if not r['pairs']:
+            return None
+        r['pairs'][-1][1] = _bump(r['pairs'][-1][1])
+    elif mode == 1:
+        t = [t for t in tabs if t['rows']]
+        if not t:
+            return None
+        t[-1]['rows'].pop()
+    elif mode == 2:
+        t = [t for t in tabs if t['rows'] and t['cols']]
+        if not t:
+            return None
+        t = t[0]
+        ci = len(t['cols']) - 1
+        cell = t['rows'][0][ci]
+        if t['cols'][ci]['alen'] > 0:
+            if not cell:
+                return None
+            cell[0] = _bump(cell[0])
+        else:
+            t['rows'][0][ci] = _bump(cell)
+    elif mode == 3:
+        t = [t for t in tabs if t['cols']]
+        if not t:
+            return None
+        t[0]['cols'][0]['name'] = list(t[0]['cols'][0]['name']) + ['q']
+    else:
+        r['pairs'].append([['z', 'z', 'q'], ['1']])
+    return r
+
+
+def comparator_selftest(ctx, accepted, reader, what, limit=60):
+    """accepted: [(text, expected value)] the comparison found equal.  Each is re-read with the expectation falsified
+    in one place; a falsified expectation that still compares equal means the comparison is vacuous there: exit 2."""
+    from . import core
+    tried = missed = 0
+    for k, (txt, res) in enumerate(accepted[:limit]):
+        bad = falsify(res, k % 5)
+        if bad is None:
+            continue
+        par = reader(txt)
+        tried += 1
+        if not compare(bad, par):
+            missed += 1
+            example = (k % 5, txt[:200])
+    ctx.cov['parts']['selftest_' + what] = {'falsified_expectations': tried, 'reported': tried - missed}
+    if tried < 5:
+        raise core.MachineryError('comparator self-test (%s): only %d falsified expectations' % (what, tried))
+    if missed:
+        raise core.MachineryError('comparator self-test (%s): %d of %d falsified expectations compared equal, e.g. mode %d text %r'
+                                  % (what, missed, tried, example[0], example[1]))
